@@ -34,11 +34,11 @@ var c19Targets = []c19Target{
 }
 
 // model keys (normalised names) and the spellings a user may type for them
-var c19Keys = []string{"default", "a", "ä b", "A", "q\"x"}
+var c19Keys = []string{"default", "a", "Zä b", "A", "q\"x"}
 var c19Spellings = map[string][]string{
 	"default": {"", "@", "default", "@default"},
 	"a":       {"a", "@a", "@@a"},
-	"ä b":     {"ä b", "@ä b"},
+	"Zä b":    {"Zä b", "@Zä b"},
 	"A":       {"A", "@A"},
 	"q\"x":    {"q\"x", "@q\"x"},
 }
@@ -81,7 +81,7 @@ func init() {
 	fw.Register(&fw.Check{
 		ID:    "C19",
 		Title: "The bookmark database behaves as a persistent name-to-file map",
-		Rule: "explicit-state exploration of the FULL state graph of the bookmark database: states = all maps from the name keys {default, a, 'ä b'} (quick) / {default, a, 'ä b', A, 'q\"x'} (thorough) to " +
+		Rule: "explicit-state exploration of the FULL state graph of the bookmark database: states = all maps from the name keys {default, a, 'Zä b'} (quick) / {default, a, 'Zä b', A, 'q\"x'} (thorough; byte order and case-folded order of the names differ) to " +
 			"{absent, existing files with spaces/quotes (quick: 2) and non-ASCII (thorough: 3) in their path (one also by a relative spelling), a missing file set with --force}: 4^3 = 64 / 5^5 = 3125 states; every state is built through the real CLI " +
 			"along a shortest path from the empty database; in every state EVERY operation is executed: set x every spelling of every name (\"\", @, default, @default, a, @a, @@a, …) x every target (with and without --force), " +
 			"unset x every spelling plus unknown names, clear --yes, clear answered y / n / EOF; observers list (also under reversed and rotated map iteration orders), info (--dir, --file), `klog total @name`, `klog total` (default bookmark) on every state. " +
